@@ -410,9 +410,32 @@ pub fn message(r: &mut Rng, sw: &Swarm, kind: Kind, v: &mut Vec<u8>) -> MsgTruth
                 0 => {} // no SP, no reason
                 1 => v.push(b' '),
                 2 => {
-                    // reason with obs-text: reported as ""
+                    // reason with obs-text (ill-formed or well-formed UTF-8, short or long, early or
+                    // late in the phrase): always reported as ""
                     v.push(b' ');
-                    v.extend_from_slice(b"Caf\xe9 OK");
+                    match r.below(5) {
+                        0 => v.extend_from_slice(b"Caf\xe9 OK"),
+                        1 => v.extend_from_slice("Pr\u{e9}condition \u{e9}chou\u{e9}e".as_bytes()),
+                        2 => {
+                            v.extend_from_slice("Caf\u{e9} ".as_bytes());
+                            let n = r.range(8, 40);
+                            v.extend(token(r, n));
+                        }
+                        3 => {
+                            let n = r.range(0, 30);
+                            v.extend(token(r, n));
+                            v.extend(utf8_char(r));
+                            let n = r.range(0, 30);
+                            v.extend(token(r, n));
+                        }
+                        _ => {
+                            let n = r.range(0, 40);
+                            v.extend(token(r, n));
+                            v.push(*r.pick(&[0x80u8, 0xff, 0xc3, 0xa9]));
+                            let n = r.range(0, 40);
+                            v.extend(token(r, n));
+                        }
+                    }
                 }
                 3 => {
                     v.push(b' ');
@@ -951,3 +974,93 @@ pub fn gen_adversarial(seed: u64, max_len: usize) -> Trace {
     t.order = vec![0];
     t
 }
+
+/// Deterministic adversarial inputs of an exact size for the instruction-count clock (C20):
+/// family -> (kind, config bits, capacity, bytes). Generation itself is linear.
+pub fn family_input(fam: usize, size: usize) -> Option<(Kind, u8, usize, Vec<u8>)> {
+    let mut v: Vec<u8> = Vec::with_capacity(size + 64);
+    let fill = |v: &mut Vec<u8>, unit: &[u8], upto: usize| {
+        while v.len() + unit.len() <= upto {
+            v.extend_from_slice(unit);
+        }
+    };
+    let body = size.saturating_sub(40);
+    Some(match fam {
+        0 => {
+            v.extend_from_slice(b"HTTP/1.1 200 OK\r\nX: a\r\n");
+            fill(&mut v, b" \r\n", body);
+            v.extend_from_slice(b"\r\n");
+            (Kind::Resp, 2, 8, v)
+        }
+        1 => {
+            v.extend_from_slice(b"HTTP/1.1 200 OK\r\nX: a\r\n");
+            fill(&mut v, b"\tbcd \r\n", body);
+            v.extend_from_slice(b"\r\n");
+            (Kind::Resp, 2, 8, v)
+        }
+        2 => {
+            v.extend_from_slice(b"HTTP/1.1 200 OK\r\n");
+            fill(&mut v, b"bad line\r\n", body);
+            v.extend_from_slice(b"Host: x\r\n\r\n");
+            (Kind::Resp, 32, 8, v)
+        }
+        3 => {
+            v.extend_from_slice(b"GET / HTTP/1.1\r\n");
+            fill(&mut v, b"bad line \x01 here\n", body);
+            v.extend_from_slice(b"Host: x\r\n\r\n");
+            (Kind::Req, 64, 8, v)
+        }
+        4 => {
+            v.extend_from_slice(b"GET /");
+            fill(&mut v, b"abc/def?x=%20&", body);
+            v.extend_from_slice(b" HTTP/1.1\r\n\r\n");
+            (Kind::Req, 0, 8, v)
+        }
+        5 => {
+            v.extend_from_slice(b"HTTP/1.1 200 OK\r\nX-Big: ");
+            fill(&mut v, b"aaaaaaa\t", body);
+            v.extend_from_slice(b"\r\n\r\n");
+            (Kind::Resp, 0, 8, v)
+        }
+        6 => {
+            fill(&mut v, b"a:b\n", body);
+            v.extend_from_slice(b"\n");
+            (Kind::Hdrs, 0, size / 4 + 4, v)
+        }
+        7 => {
+            v.extend_from_slice(b"HTTP/1.1 200 OK\r\nX-Ws:");
+            fill(&mut v, b" \t  ", body);
+            v.extend_from_slice(b"v\r\n\r\n");
+            (Kind::Resp, 0, 8, v)
+        }
+        8 => {
+            v.extend_from_slice(b"1a ;");
+            fill(&mut v, b"ext=\"aaaaaaaaaaaa\n\";", body);
+            v.extend_from_slice(b"\r\n");
+            (Kind::Chunk, 0, 0, v)
+        }
+        9 => {
+            // ignored lines followed by a large body: work must not depend on what follows the head
+            v.extend_from_slice(b"HTTP/1.1 200 OK\r\n");
+            fill(&mut v, b"bad line\r\n", body / 2);
+            v.extend_from_slice(b"Host: x\r\n\r\n");
+            fill(&mut v, b"body body body body ", body);
+            (Kind::Resp, 32, 8, v)
+        }
+        10 => {
+            // folds that never complete (no terminating empty line): Partial at the end
+            v.extend_from_slice(b"HTTP/1.1 200 OK\r\nX: a\r\n");
+            fill(&mut v, b" \r\n", body);
+            (Kind::Resp, 2 | 32, 8, v)
+        }
+        11 => {
+            // leading whitespace lines / space before first header with ignore
+            v.extend_from_slice(b"GET / HTTP/1.1\r\n");
+            fill(&mut v, b"  : x\r\n", body);
+            v.extend_from_slice(b"\r\n");
+            (Kind::Req, 16 | 64, 8, v)
+        }
+        _ => return None,
+    })
+}
+pub const FAMILIES: usize = 12;
